@@ -24,6 +24,9 @@ pub struct Sched {
     st: Mutex<State>,
     cv: Condvar,
     n: usize,
+    /// free-running mode: no thread is ever parked, the product's scheduling points are not hooked;
+    /// the participants are released together and race for real
+    free: bool,
 }
 
 pub const MAX_STEPS: u64 = 20_000;
@@ -34,7 +37,21 @@ impl Sched {
             st: Mutex::new(State { current: 0, live: vec![true; n], schedule, pos: 0, steps: 0, rr: 0, trace: vec![], preemptions: 0 }),
             cv: Condvar::new(),
             n,
+            free: false,
         })
+    }
+
+    pub fn new_free(n: usize) -> Arc<Sched> {
+        Arc::new(Sched {
+            st: Mutex::new(State { current: usize::MAX, live: vec![true; n], schedule: vec![], pos: 0, steps: 0, rr: 0, trace: vec![], preemptions: 0 }),
+            cv: Condvar::new(),
+            n,
+            free: true,
+        })
+    }
+
+    pub fn is_free(&self) -> bool {
+        self.free
     }
 
     fn choose(st: &mut State, me: usize) -> usize {
@@ -58,6 +75,10 @@ impl Sched {
 
     /// called by thread `me` at a scheduling point
     pub fn point(&self, me: usize, name: &'static str) {
+        if self.free {
+            std::hint::spin_loop();
+            return;
+        }
         let mut st = self.st.lock();
         st.steps += 1;
         let step = st.steps;
@@ -101,7 +122,7 @@ impl Sched {
     }
 
     pub fn runaway(&self) -> bool {
-        self.st.lock().steps > MAX_STEPS
+        !self.free && self.st.lock().steps > MAX_STEPS
     }
 
     pub fn trace(&self) -> Vec<(u64, usize, &'static str)> {
@@ -119,6 +140,19 @@ impl Sched {
 
 /// run the participants under the schedule; each closure gets its thread index
 pub fn run(sched: &Arc<Sched>, bodies: Vec<Box<dyn FnOnce(usize) + Send>>) {
+    if sched.free {
+        let gate = std::sync::Barrier::new(bodies.len());
+        std::thread::scope(|scope| {
+            for (i, body) in bodies.into_iter().enumerate() {
+                let gate = &gate;
+                scope.spawn(move || {
+                    gate.wait();
+                    body(i);
+                });
+            }
+        });
+        return;
+    }
     std::thread::scope(|scope| {
         for (i, body) in bodies.into_iter().enumerate() {
             let sched = sched.clone();
